@@ -1,4 +1,8 @@
-import FeatherModel.Lemmas.DiffApply
+import FeatherModel.Lemmas.DiffTop
+import FeatherModel.Lemmas.DiffTotal
+import FeatherModel.Lemmas.DiffNorm
+import FeatherModel.Lemmas.DiffTextRead
+import FeatherModel.Lemmas.DiffKeySync
 
 /-!
 # C04 — applying a mapping diff is exact; diff and apply are inverse
@@ -6,7 +10,12 @@ Property theorems only. Model: `FeatherModel/Model/Diff.lean` (apply, diff), `Fe
 (`.tinydiff` reader, specification writer), `FeatherModel/Model/DiffSpec.lean` (the table `applySpec`, domains).
 
 `NoDup m` (keys of `m` pairwise different) is the `IndexMap` invariant; it is a hypothesis wherever a map is looked up.
-All theorems are for every namespace count, every namespace index and maps of every size.
+All theorems of parts (1)–(3) are for every namespace count, every namespace index and maps of every size; parts (4)–(6)
+are about `MappingsDiff::diff`, which the Rust types restrict to two namespaces.
+
+Overview: (1) `apply_exact` + the five level theorems, (2) `apply_untouched*`, (3) `apply_refuses*` and the refusal tables, (3b) `apply_preserves_wf_partial` with its witness,
+(4) `diff_total_on`, `diff_apply_partial` with its witnesses, (5) the `.tinydiff` text: `read_write`,
+`read_no_top_level`, `apply_read_back`, `diff_apply_text_partial` with its witnesses, (6) non-vacuity examples.
 -/
 
 namespace Thm.C04
@@ -423,6 +432,208 @@ theorem add_absent_first_namespace_witness :
       { ns := [jstr "official", jstr "named"], doc := none, classes := [] } (jstr "official")
     = some { ns := [jstr "official", jstr "named"], doc := none,
              classes := [(jstr "Z", { names := [some (jstr "b"), none], doc := none, fields := [], methods := [] })] } := by
+  decide
+
+/-! ## (3b) the result is a well-formed mapping set again — outside the first namespace -/
+
+/-- the result of `apply_diff_map` has unique keys, whatever the diff -/
+theorem apply_result_keys_unique {K D T : Type} [BEq K] [LawfulBEq K] (ops : Ops K D T) (ns N : Nat) (child : D → T → Option T)
+    {diffs : AList K D} {targets res : AList K T} (h : applyMap ops ns N child diffs targets = some res) : NoDup res :=
+  nodup_applyMap ops ns N child h
+
+/-- **apply_preserves_wf_partial**: applied to a well-formed set (`WF`: unique keys, every entry stored under the key
+its first-namespace name (+ descriptor / index) gives, name rows as long as the namespace list) in a namespace OTHER THAN
+THE FIRST, a successful application gives a well-formed set again — nothing "silently wrong" comes out. For the first
+namespace this fails: `apply_preserves_wf_first_namespace_witness`. -/
+theorem apply_preserves_wf_partial {d : Diff} {t r : Mappings} {nsName : JStr} {ns : Nat} (hd : Diff.WF d) (ht : WF t)
+    (hn : t.getNamespace nsName = some ns) (hns : ns ≠ 0) (h : applyTo d t nsName = some r) : WF r :=
+  applyTo_preserves_wf hd ht hn hns h
+
+/-- **defect** (reproduced on the real code): in the FIRST namespace an `Add` under a key the target does not have is
+not refused (entries that exist are: `change_name` bails out, "it needs to be kept in sync with the keys"); the new entry
+is stored under key `Z` while its first-namespace name is `b` — the result is not well formed -/
+theorem apply_preserves_wf_first_namespace_witness :
+    let d : Diff := { info := .none, doc := .none, classes := [(jstr "Z", { info := .add (jstr "b"), doc := .none, fields := [], methods := [] })] }
+    let t : Mappings := { ns := [jstr "official", jstr "named"], doc := none, classes := [] }
+    Diff.WF d ∧ WF t ∧ t.getNamespace (jstr "official") = some 0 ∧
+      ∃ r, applyTo d t (jstr "official") = some r ∧ ¬ WF r := by
+  decide
+
+/-! ## (4) `diff` then `apply` -/
+
+/-- **diff_total_on**: for key-unique mapping sets, `diff a b` succeeds exactly when both have two namespaces with the
+same names and every class, field, method and parameter of both has a name in the second namespace (`gen_diff_names`
+fails on an absent name; nothing else can fail) -/
+theorem diff_total_on {a b : Mappings} (ka : KeysUnique a) (kb : KeysUnique b) :
+    (diff a b).isSome = (decide (a.ns.length = 2) && decide (a.ns = b.ns) && allNamed a && allNamed b) :=
+  diff_isSome ka kb
+
+/-- `diff` never renames the namespace (`// TODO: namespace renaming is possible!`) -/
+theorem diff_info_none {a b : Mappings} {d : Diff} (h : diff a b = some d) : d.info = .none := by
+  unfold diff at h
+  split at h
+  · cases h
+  · split at h
+    · cases h
+    · cases hz : zipMap diffClass a.classes b.classes with
+      | none => rw [hz] at h; cases h
+      | some cs => rw [hz] at h; simp only [Option.some.injEq] at h; subst h; rfl
+
+/-- **diff_apply_partial** (`apply(diff(A, B), A) ≈ B`). For well-formed `A`, `B` (`WF`: unique keys, entries stored under
+the key their first name gives — the invariants of trees built through quill's API) over two DIFFERENT namespace names:
+whenever `diff A B` succeeds, applying it to `A` in the second namespace succeeds and the result has the same namespaces,
+the same comment and, under every key at every level, the same entry as `B` (`MappingsEqv`; `eqvMappings` is the Boolean
+the oracles evaluate). Weaker than the property text in two ways, each with a witness below:
+* `ParamSrcless A B`: a parameter of `B` carries the first-namespace name of the same parameter of `A`, and none if `A`
+  has no such parameter (`diff_apply_param_src_witness`: the diff has no place for it and `from_key` creates the row empty);
+* `≈` instead of `=`: the ORDER of the result is `A`'s order followed by the additions (`diff_apply_order_witness`). -/
+theorem diff_apply_partial {a b : Mappings} {d : Diff} {n0 n1 : JStr} (wa : WF a) (wb : WF b)
+    (hns : a.ns = [n0, n1]) (hne : n0 ≠ n1) (hsrc : ParamSrcless a b) (hd : diff a b = some d) :
+    ∃ r, applyTo d a n1 = some r ∧ MappingsEqv r b ∧ eqvMappings r b = true := by
+  obtain ⟨r, hr, he⟩ := diff_apply_eqv wa wb hns hne hsrc hd
+  exact ⟨r, hr, he, eqvMappings_of he⟩
+
+/-- **the known gap** (reproduced on the real code): `B` adds parameter 0 with names `src`/`dst`; the diff carries `Add dst`
+only, the applied result has the parameter with an EMPTY first-namespace name, so it differs from `B` -/
+theorem diff_apply_param_src_witness :
+    let m (ps : AList Nat Param) : Mappings := { ns := [jstr "official", jstr "named"], doc := none, classes := [
+      (jstr "A", { names := [some (jstr "A"), some (jstr "X")], doc := none, fields := [], methods := [
+        ((jstr "m", jstr "(I)V"), { desc := jstr "(I)V", names := [some (jstr "m"), some (jstr "n")], doc := none, params := ps })] })] }
+    let a := m []
+    let b := m [(0, { index := 0, names := [some (jstr "src"), some (jstr "dst")], doc := none })]
+    WF a ∧ WF b ∧ ¬ ParamSrcless a b ∧
+      ∃ d, diff a b = some d ∧
+        applyTo d a (jstr "named") = some (m [(0, { index := 0, names := [none, some (jstr "dst")], doc := none })]) ∧
+        ∀ r, applyTo d a (jstr "named") = some r → eqvMappings r b = false := by
+  decide
+
+/-- the namespace names must differ: `apply_to` looks the namespace up BY NAME, finds the first one, and the first
+namespace cannot be edited -/
+theorem diff_apply_same_namespace_witness :
+    let m (x : String) : Mappings := { ns := [jstr "n", jstr "n"], doc := none, classes := [
+      (jstr "A", { names := [some (jstr "A"), some (jstr x)], doc := none, fields := [], methods := [] })] }
+    WF (m "X") ∧ WF (m "Y") ∧ ParamSrcless (m "X") (m "Y") ∧
+      ∃ d, diff (m "X") (m "Y") = some d ∧ applyTo d (m "X") (jstr "n") = none := by
+  decide
+
+/-- content equality is the most that holds: additions are appended after the surviving entries of `A`, whatever their
+place in `B` -/
+theorem diff_apply_order_witness :
+    let c (k x : String) : JStr × Class := (jstr k, { names := [some (jstr k), some (jstr x)], doc := none, fields := [], methods := [] })
+    let a : Mappings := { ns := [jstr "official", jstr "named"], doc := none, classes := [c "B" "Y"] }
+    let b : Mappings := { ns := [jstr "official", jstr "named"], doc := none, classes := [c "A" "X", c "B" "Y"] }
+    WF a ∧ WF b ∧ ParamSrcless a b ∧
+      ∃ d, diff a b = some d ∧ ∃ r, applyTo d a (jstr "named") = some r ∧ eqvMappings r b = true ∧ r ≠ b := by
+  decide
+
+/-! ## (5) the same through `.tinydiff` text
+The repository has a READER only (`quill/src/tiny_v2_diff.rs`); `TinyDiff.writeSpec` is specification text (mirrored by
+`harness/src/diffcodec.rs::write_spec`, which is harness code, not repository code): the statements below say that the
+reader inverts this printer. -/
+
+/-- **read_write**: the reader reads the specification text of a `Writable` diff back as the diff with every
+`Edit(a, a)` replaced by `None` (two equal cells mean "no action" in the format), same keys in the same order -/
+theorem read_write (d : Diff) (h : Writable d) : TinyDiff.read (TinyDiff.writeSpec d) = some (normDiff d) :=
+  TinyDiff.read_writeSpec d h
+
+/-- no text at all carries a namespace rename or a change of the top-level comment: the reader always returns
+`info = None`, `javadoc = None` -/
+theorem read_no_top_level {text : List Nat} {d : Diff} (h : TinyDiff.read text = some d) :
+    d.info = .none ∧ d.doc = .none := by
+  unfold TinyDiff.read at h
+  split at h
+  · cases h
+  · split at h
+    · cases h
+    · split at h
+      · cases h
+      · simp only [Option.some.injEq] at h; subst h; exact ⟨rfl, rfl⟩
+
+/-- … hence applying a diff that was read from text never changes namespaces or top-level comment -/
+theorem text_keeps_top_level {text : List Nat} {d : Diff} {t r : Mappings} {nsName : JStr}
+    (h : TinyDiff.read text = some d) (ha : applyTo d t nsName = some r) : r.ns = t.ns ∧ r.doc = t.doc := by
+  obtain ⟨hi, hdoc⟩ := read_no_top_level h
+  unfold applyTo at ha
+  cases hn : t.getNamespace nsName with
+  | none => rw [hn] at ha; cases ha
+  | some ns =>
+    rw [hn] at ha
+    simp only [applyAt, hi, hdoc, applyInfo, applyOption] at ha
+    cases hc : applyMap classOps ns t.ns.length (applyClass ns t.ns.length) d.classes t.classes with
+    | none => rw [hc] at ha; cases ha
+    | some cs => rw [hc] at ha; simp only [Option.some.injEq] at ha; subst ha; exact ⟨rfl, rfl⟩
+
+/-- **apply_read_back**: replacing `Edit(a, a)` by `None` (what travelling through text does) never changes a SUCCESSFUL
+application: same namespaces, same comment, and under every key at every level the same entry. (The converse is false:
+`text_weakens_same_edit_witness`.) -/
+theorem apply_read_back {d : Diff} {t r : Mappings} {nsName : JStr} (hd : Diff.WF d) (ht : KeysUnique t)
+    (hinfo : d.info = .none) (hdoc : normAction d.doc = .none) (h : applyTo d t nsName = some r) :
+    ∃ r', applyTo (normDiff d) t nsName = some r' ∧ MappingsEqv r' r :=
+  norm_applyTo hd ht hinfo hdoc h
+
+/-- an `Edit(X, X)` with a WRONG old value is refused when applied directly, but is accepted (as `None`) after the diff
+went through text: the old-value check of an unchanged name does not survive the format -/
+theorem text_weakens_same_edit_witness :
+    let d : Diff := { info := .none, doc := .none, classes := [
+      (jstr "A", { info := .edit (jstr "X") (jstr "X"), doc := .none, fields := [], methods := [] })] }
+    let t : Mappings := { ns := [jstr "official", jstr "named"], doc := none, classes := [
+      (jstr "A", { names := [some (jstr "A"), some (jstr "Y")], doc := none, fields := [], methods := [] })] }
+    Writable d ∧ applyTo d t (jstr "named") = none ∧
+      ∃ d', TinyDiff.read (TinyDiff.writeSpec d) = some d' ∧ applyTo d' t (jstr "named") = some t := by
+  decide
+
+theorem keysUnique_of_WF {m : Mappings} (h : WF m) : KeysUnique m :=
+  ⟨h.1, fun c hc => ⟨(h.2 c hc).2.2.1, (h.2 c hc).2.2.2.2.1, fun me hme => ((h.2 c hc).2.2.2.2.2 me hme).2.2.2.1⟩⟩
+
+/-- **diff_apply_text_partial**: on the domain of `diff_apply_partial`, if moreover the diff is `Writable` (names and
+comments survive a line of text; the top-level comment is unchanged), the diff read back from its specification text
+still turns `A` into (something `≈`) `B` -/
+theorem diff_apply_text_partial {a b : Mappings} {d : Diff} {n0 n1 : JStr} (wa : WF a) (wb : WF b)
+    (hns : a.ns = [n0, n1]) (hne : n0 ≠ n1) (hsrc : ParamSrcless a b) (hd : diff a b = some d) (hw : Writable d) :
+    ∃ d' r, TinyDiff.read (TinyDiff.writeSpec d) = some d' ∧ applyTo d' a n1 = some r ∧
+      MappingsEqv r b ∧ eqvMappings r b = true := by
+  obtain ⟨r, hr, he, _⟩ := diff_apply_partial wa wb hns hne hsrc hd
+  obtain ⟨r', hr', he'⟩ := apply_read_back hw.2.2.1 (keysUnique_of_WF wa) hw.1 hw.2.1 hr
+  have := mappingsEqv_trans he' he
+  exact ⟨normDiff d, r', read_write d hw, hr', this, eqvMappings_of this⟩
+
+/-- a change of the top-level comment cannot travel through text (`Writable` excludes it for this reason) -/
+theorem diff_apply_text_top_comment_witness :
+    let m (doc : Option JStr) : Mappings := { ns := [jstr "official", jstr "named"], doc := doc, classes := [] }
+    (∃ d, diff (m none) (m (some (jstr "x"))) = some d ∧ ¬ Writable d ∧
+      applyTo d (m none) (jstr "named") = some (m (some (jstr "x")))) ∧
+    ∀ text d' r, TinyDiff.read text = some d' → applyTo d' (m none) (jstr "named") = some r → r.doc = none := by
+  refine ⟨by decide, ?_⟩
+  intro text d' r h ha
+  exact (text_keeps_top_level h ha).2
+
+/-! ## (6) the hypotheses are satisfiable -/
+
+/-- `diff_apply_partial` / `diff_apply_text_partial` apply to a pair sharing some keys and differing at all five levels
+(class renamed, field removed, method added with a parameter, parameter renamed keeping its source name, comments
+added / removed / edited with a line feed) -/
+example :
+    let a : Mappings := { ns := [jstr "official", jstr "named"], doc := some (jstr "top"), classes := [
+      (jstr "p/A", { names := [some (jstr "p/A"), some (jstr "q/X")], doc := some (jstr "old"), fields := [((jstr "f", jstr "I"), { desc := jstr "I", names := [some (jstr "f"), some (jstr "g")], doc := none })], methods := [((jstr "m", jstr "(I)V"), { desc := jstr "(I)V", names := [some (jstr "m"), some (jstr "n")], doc := none, params := [(0, { index := 0, names := [some (jstr "s"), some (jstr "p")], doc := some (jstr "pd") })] })] }),
+      (jstr "B", { names := [some (jstr "B"), some (jstr "Y")], doc := none, fields := [], methods := [] })] }
+    let b : Mappings := { ns := [jstr "official", jstr "named"], doc := some (jstr "top"), classes := [
+      (jstr "C", { names := [some (jstr "C"), some (jstr "Z")], doc := none, fields := [], methods := [] }),
+      (jstr "p/A", { names := [some (jstr "p/A"), some (jstr "q/W")], doc := some (jstr "new\nline"), fields := [], methods := [((jstr "k", jstr "()V"), { desc := jstr "()V", names := [some (jstr "k"), some (jstr "l")], doc := some (jstr "md"), params := [(1, { index := 1, names := [none, some (jstr "q")], doc := none })] }), ((jstr "m", jstr "(I)V"), { desc := jstr "(I)V", names := [some (jstr "m"), some (jstr "n")], doc := none, params := [(0, { index := 0, names := [some (jstr "s"), some (jstr "r")], doc := none })] })] })] }
+    WF a ∧ WF b ∧ ParamSrcless a b ∧ ∃ d, diff a b = some d ∧ Writable d ∧ d ≠ normDiff d := by
+  decide
+
+/-- `apply_exact` / `apply_refuses` speak about real refusals: one diff per refused combination of the table -/
+example :
+    let t : Mappings := { ns := [jstr "official", jstr "named"], doc := none, classes := [
+      (jstr "A", { names := [some (jstr "A"), some (jstr "X")], doc := none, fields := [], methods := [] }),
+      (jstr "B", { names := [some (jstr "B"), none], doc := none, fields := [], methods := [] })] }
+    let d (k : String) (a : Action JStr) : Diff := { info := .none, doc := .none, classes := [
+      (jstr k, { info := a, doc := .none, fields := [], methods := [] })] }
+    applyTo (d "A" (.add (jstr "N"))) t (jstr "named") = none ∧ applyTo (d "A" (.remove (jstr "W"))) t (jstr "named") = none ∧
+    applyTo (d "A" (.edit (jstr "W") (jstr "N"))) t (jstr "named") = none ∧ applyTo (d "Z" .none) t (jstr "named") = none ∧
+    applyTo (d "Z" (.remove (jstr "X"))) t (jstr "named") = none ∧ applyTo (d "B" (.remove (jstr "X"))) t (jstr "named") = none ∧
+    (applyTo (d "B" (.add (jstr "N"))) t (jstr "named")).isSome ∧ (applyTo (d "A" (.remove (jstr "X"))) t (jstr "named")).isSome ∧
+    (applyTo (d "Z" (.add (jstr "N"))) t (jstr "named")).isSome ∧ applyTo (d "A" (.edit (jstr "X") (jstr "N"))) t (jstr "official") = none := by
   decide
 
 end Thm.C04
